@@ -2943,6 +2943,14 @@ evhttp_make_request(struct evhttp_connection *evcon,
 	/* We are making a request */
 	req->kind = EVHTTP_REQUEST;
 	req->type = type;
+	if (strpbrk(uri, "\r\n") != NULL) {
+		/* A request target must not contain line breaks: it would be
+		 * written verbatim into the request line and could add header
+		 * fields or a whole second request. */
+		event_warnx("%s: illegal characters in request uri", __func__);
+		evhttp_request_free_auto(req);
+		return (-1);
+	}
 	if (req->uri != NULL)
 		mm_free(req->uri);
 	if ((req->uri = mm_strdup(uri)) == NULL) {
